@@ -171,7 +171,7 @@ def cache_transparency(protocol="file", level="1.5", rpc_w=2, rpc_r=3, producer=
                 pass
 
 
-def cache_states(local, remote, k_frac=0.5, use_cache=True, create_cache=False, level="1.5", rpc=3):
+def cache_states(local, remote, k_frac=0.5, use_cache=True, create_cache=False, level="1.5", rpc=3, midchar=False):
     """put the two cache locations of every image into the given states (0 absent, 1 complete, 2 torn after k_frac of the
     document), open through open_alos2 with the given options and compare with an uncached open"""
     import glob
@@ -195,15 +195,21 @@ def cache_states(local, remote, k_frac=0.5, use_cache=True, create_cache=False, 
         if len(docs) != len(datas):
             return {"reproduced": True, "error": f"create_cache=True wrote {len(docs)} index files for {len(datas)} images"}
         for f, doc in docs.items():
-            cut = min(int(len(doc) * k_frac), len(doc) - 1)
+            raw = doc.encode()
+            cut = min(int(len(raw) * k_frac), len(raw) - 1)
+            if midchar:
+                # cut inside a multi-byte character if the document has one (byte-level crash point)
+                multi = [i for i, b in enumerate(raw) if b >= 0x80 and (b & 0xC0) == 0x80]
+                if multi:
+                    cut = multi[0]
             adj = os.path.join(base, os.path.basename(f))
             for where, state in ((f, local), (adj, remote)):
                 if state == 0:
                     if os.path.exists(where):
                         os.remove(where)
                 else:
-                    with open(where, "w") as fh:
-                        fh.write(doc if state == 1 else doc[:cut])
+                    with open(where, "wb") as fh:
+                        fh.write(raw if state == 1 else raw[:cut])
         listing_before = sorted(os.listdir(base))
         try:
             got = ceos_alos2.open_alos2(base, backend_options={"use_cache": use_cache, "create_cache": create_cache, "records_per_chunk": rpc})
